@@ -257,7 +257,7 @@ Render(FC, st, block) ==
                 ELSE [l \in 1 .. FC.nl |->
                    LineOf(Field(l, st) \o Field(FC.llq[l], st) \o Field(FC.lt[l], st) \o Field(FC.luq[l], st)
                           \o (IF FC.lists THEN ListText(FC.lprefs[l], FC.lranks[l], st) ELSE <<>>), st)]
-    IN  LineOf(hdr, st) \o FlattenSeq(stl) \o FlattenSeq(pl) \o FlattenSeq(lecl)
+    IN  LineOf(hdr, st) \o Concat(stl) \o Concat(pl) \o Concat(lecl)
         \o (IF block THEN InfoBlock ELSE <<>>)
 
 =============================================================================
